@@ -447,6 +447,8 @@ static size_t run_line(size_t pc, int in_child, int *stop) {
     } else if (!strcmp(c, "writefile")) { unsigned char *a = unhex(tok[1], &n); size_t m = 0; unsigned char *b = unhex(tok[2], &m);
         int fd = open((char *) a, O_WRONLY | O_CREAT | O_TRUNC, 0644); if (fd < 0 || write(fd, b, m) < 0) opf("{\"ev\":\"error\",\"what\":\"writefile: %s\"}\n", strerror(errno)); if (fd >= 0) close(fd); free(a); free(b);
     } else if (!strcmp(c, "chmodpath")) { unsigned char *a = unhex(tok[1], &n); if (chmod((char *) a, (mode_t) strtol(tok[2], NULL, 8))) opf("{\"ev\":\"error\",\"what\":\"chmod: %s\"}\n", strerror(errno)); free(a);
+    } else if (!strcmp(c, "fsizelimit")) {                          /* the file system accepts nothing beyond <bytes>: writes come back short, then fail with EFBIG (SIGXFSZ ignored) */
+        struct rlimit rl = { (rlim_t) atoll(tok[1]), (rlim_t) atoll(tok[1]) }; signal(SIGXFSZ, SIG_IGN); if (setrlimit(RLIMIT_FSIZE, &rl)) opf("{\"ev\":\"error\",\"what\":\"setrlimit: %s\"}\n", strerror(errno));
     } else if (!strcmp(c, "threadstack")) { thread_stack = (size_t) atol(tok[1]);
     } else if (!strcmp(c, "preerrno")) { pre_errno = atoi(tok[1]);
     } else if (!strcmp(c, "childtimeout")) { child_timeout = atol(tok[1]);
